@@ -1,7 +1,10 @@
 import LP.Props.C03
+import LP.Props.C03Greatest
 #print axioms LP.QPoly.toPoly_add
 #print axioms LP.QPoly.toPoly_mul
 #print axioms LP.QPoly.toPoly_trim
 #print axioms LP.QPoly.C03_bezout_sound
 #print axioms LP.QPoly.C03_coprimeCert_sound
 #print axioms LP.MPoly.C03_gcd_divides
+#print axioms LP.C03_greatest_of_coprime
+#print axioms LP.C03_greatest_univariate
